@@ -785,11 +785,9 @@ func runC12(r *core.Run) (bool, string) {
 
 	mark("directed_and_global_wrappers")
 	{
-		lenv := &c12env{root: filepath.Join(r.Scratch, "c12-lengths-generalize")}
-		st := runLengthFamily(r, func(d c12div) {
-			if x, g := lenv.generalize(d, d.Pool, "methods"); g {
-				d = x
-			}
+		// divergences found by the child processes: no shrinking (the histories
+		// are a handful of calls), same de-duplication by signature
+		childViolate := func(d c12div) {
 			mu.Lock()
 			divCount[d.Pool+"/"+d.Sig]++
 			first := !shrunk[d.Sig]
@@ -799,10 +797,17 @@ func runC12(r *core.Run) (bool, string) {
 				r.Violate(d.Sig, fmt.Sprintf("%s diverges from the model at %s (%s): expected %s, observed %s; history: %s",
 					d.Impl, d.Op, d.What, d.Expected, d.Observed, strings.Join(d.History, " ; ")), d)
 			}
+		}
+		lenv := &c12env{root: filepath.Join(r.Scratch, "c12-lengths-generalize")}
+		st := runLengthFamily(r, func(d c12div) {
+			if x, g := lenv.generalize(d, d.Pool, "methods"); g {
+				d = x
+			}
+			childViolate(d)
 		})
 		total.merge(&st)
 		mark("length_family_children")
-		total.compared += runStagingProbe(r)
+		total.compared += runStagingProbe(r, childViolate)
 		mark("staging_probe_child")
 	}
 	r.Set("section_seconds", secs)
